@@ -8,7 +8,7 @@
 //! read-only tables), so every case owns its contexts and no lock is needed.
 
 use crate::params::*;
-use crate::s126::{self, Chip, IrqMode, Op, RxKind, CHIPS, IRQ_MODES};
+use crate::s126::{self, Op, RxKind, CHIPS, IRQ_MODES};
 use crate::s127::{self, Cfg, Chip7, ModP, PktP, CHIPS7};
 use lrv_core::*;
 
@@ -415,7 +415,6 @@ fn modes_126(idx: u64, rng: &mut Prng, col: &mut Collector) {
         16 => Op::Rx(RxKind::Duty(rng.below(1 << 24) as u32, rng.below(1 << 24) as u32)),
         _ => Op::Cad(SFS[(k - 17) as usize]),
     };
-    let _ = IrqMode::Tx;
     s126::compare(col, chip, boost, &op, &s126::random_prior(rng, false));
 }
 
@@ -435,6 +434,3 @@ fn rxflow(col: &mut Collector, rng: &mut Prng, chip: Chip7, bw: Option<lora_modu
     let sc = s127::sc_rxflow(cfg, rng, m, p, kind);
     s127::compare(col, &sc);
 }
-
-#[allow(dead_code)]
-fn _unused(_: Chip) {}
